@@ -106,6 +106,13 @@ class Substitutor(SchemaVisitor[GenericSchema]):
 
         return substituted
 
+    def _matches_elements(self, value: List[Any], elements: List[GenericSchema], start: int) -> bool:
+        if start + len(elements) > len(value):
+            return False
+        validator = Validator()
+        return not any(element_schema.__accept__(validator, value=value[start + index]).has_errors()
+                       for index, element_schema in enumerate(elements))
+
     def visit_list(self, schema: ListSchema, *, value: Any = Nil, **kwargs: Any) -> ListSchema:
         result = schema.__accept__(self._validator, value=value)
         if result.has_errors():
@@ -137,7 +144,11 @@ class Substitutor(SchemaVisitor[GenericSchema]):
 
         # body
         if (len(elements) > 2) and is_ellipsis(elements[0]) and is_ellipsis(elements[-1]):
-            for index, val in enumerate(value):
+            # a position where the value matches the declared elements as they stand comes before
+            # the positions where it only fits them as a partial value
+            indexes = sorted(range(len(value)),
+                             key=lambda idx: not self._matches_elements(value, elements[1:-1], idx))
+            for index in indexes:
                 try:
                     substituted = self._substitute_elements(value, elements[1:-1], index, **kwargs)
                 except SubstitutionError:
